@@ -116,6 +116,8 @@ class Gen:
             return tb + bytes([len(b)]) + b
         if k == "t":
             b = r.choice([b"interned", b"", b"abc", "é".encode("utf-8")])
+            if self.era == 4 and r.random() < 0.3:
+                b = r.choice([b"\xed\xb2\x80abc", b"x\xed\xa0\x80"])      # lone surrogates (surrogatepass)
             if self.era == 4:
                 tb, idx = self.flag("t", True, True)
                 self.finish(idx, True)
